@@ -84,6 +84,11 @@ RECURSIVE = [
      'L::Cons(Rc_(1), Box::new(L::Cons(Rc_(2), Box::new(L::Nil))))',
      'L::Cons(Rc_(11), Box::new(L::Cons(Rc_(12), Box::new(L::Nil))))',
      'Cons(Rc_(1011), Cons(Rc_(1012), Nil))', 'clone_from:1<-11,clone_from:2<-12'),
+    # a variant (and a field) under a `cfg` that HOLDS: it is a variant like any other
+    ('pub enum L { Nil, #[cfg(all())] Two(Rc_, Rc_), #[cfg(not(any()))] One { #[cfg(all())] v: Rc_ } }',
+     'L::Two(Rc_(1), Rc_(2))', 'L::Two(Rc_(11), Rc_(12))', 'Two(Rc_(1011), Rc_(1012))', 'clone_from:1<-11,clone_from:2<-12'),
+    ('pub enum L { Nil, #[cfg(all())] Two(Rc_, Rc_), #[cfg(not(any()))] One { #[cfg(all())] v: Rc_ } }',
+     'L::One { v: Rc_(1) }', 'L::One { v: Rc_(11) }', 'One { v: Rc_(1011) }', 'clone_from:1<-11'),
     # (a GENERIC recursive type gets the cyclic bound `Option<Box<T<A>>>: Clone` and never implements Clone: the documented
     # field-type bounds; recursive shapes are outside C12 as well)
 ]
